@@ -31,6 +31,25 @@ Theorem C19_same_behaviour_full :
 Proof. exact same_behaviour. Qed.
 Print Assumptions C19_same_behaviour_full.
 
+(** The same for the two sets of closures that the implementation really runs (plain execution: the
+    blocking variants of the channel operations; under the Debugger, which goes through
+    ExecuteWithContext: the cancellable ones), under the side condition that the two step functions
+    agree while the context is not cancelled. The side condition is what the correspondence checks on
+    every generated session; its negation is a violation, not a known finding. *)
+Theorem C19_same_behaviour_variants_partial :
+  forall (St : Type) (plain debugged : St -> option (St * act)) (g : cfg) (fuel : nat) (ps : St) (rq : list request),
+    variants_agree plain debugged ->
+    no_terminate rq ->
+    ses_state (d_session debugged g fuel ps rq) = pl_state (p_session plain fuel ps)
+    /\ ses_status (d_session debugged g fuel ps rq) = pl_status (p_session plain fuel ps)
+    /\ map snd (ses_heads (d_session debugged g fuel ps rq)) = pl_visited (p_session plain fuel ps).
+Proof. exact same_behaviour_variants. Qed.
+Print Assumptions C19_same_behaviour_variants_partial.
+
+Theorem C19_variants_inhabited : variants_agree replay_step replay_step.
+Proof. exact variants_inhabited. Qed.
+Print Assumptions C19_variants_inhabited.
+
 (** Soundness of break events, for every client (terminate included): a reported break is a
     flagged, positioned node that the tracker was at. *)
 Theorem C19_events_sound_full :
@@ -166,6 +185,13 @@ Theorem C19_linebp_globals_refuted :
   /\ ses_status (d_session replay_step w_glob 10 w_glob_linereq []) = Returned.
 Proof. exact linebp_globals. Qed.
 Print Assumptions C19_linebp_globals_refuted.
+
+(** Refuted outside the loops as well: a line request on a program with a parameter of an imported
+    type makes SetBreakpoints call a nil generator; the host panics. *)
+Theorem C19_linebp_hostpanic_refuted :
+  pregen (fun n => negb (Nat.eqb n 1)) [0; 1; 2] = None /\ pregen (fun _ => true) [0; 1; 2] = Some tt.
+Proof. exact linebp_hostpanic. Qed.
+Print Assumptions C19_linebp_hostpanic_refuted.
 
 Theorem C19_statement_refuted : ~ C19_statement.
 Proof. exact statement_refuted. Qed.
